@@ -309,7 +309,7 @@ void drv_apply(const char* op)
     if(!strcmp(op, "put") && kp == 3) nop = 1;
     if(!strcmp(op, "open") && ((kp == 3 && (!is_linkF(p) || (k & 2))) || (kp == 1 && !(k & 2)))) nop = 1;
     if(!strcmp(op, "get") && (kp == 1 || (kp == 3 && !is_linkF(p)))) nop = 1;
-    if(!strcmp(op, "copy") && ((kp == 3 && !is_linkF(p)) || (kq == 3 && k != 1) || !strcmp(p, q))) nop = 1;
+    if(!strcmp(op, "copy") && ((kq == 3 && k != 1) || !strcmp(p, q))) nop = 1;
   }
   if(nop) { fs_log("nop", p, q, k, d ? d : (const unsigned char*)"", dn, dIsOff, off, 0, (const unsigned char*)"", 0); free(d); return; }
 
